@@ -67,6 +67,19 @@ def cases(rng, tier):
             evs = [(Tt["LOOP_START"], 0, 0, 0), (Tt["NOTE"], 40, 6, 0), (Tt["LOOP_BREAK"], 0, 0, 0)] + tail + \
                   [(Tt["NOTE"], 41, 6, 0), (Tt["LOOP_END"], 2, 0, 0), (Tt["NOTE"], 42, 6, 0)]
             yield Case("convwf " + songgen.render({0: evs}), ("break-distance-%d" % (2 * n_cmd + s1 + 4),), "break-distance")
+    # structurally broken songs (unbalanced brackets, breaks and ends outside loops, in channel tracks,
+    # subroutines, macro tracks and drum routines): they must be refused, not compiled to a stream with
+    # an open loop
+    LS, LB, N = (Tt["LOOP_START"], 0, 0, 0), (Tt["LOOP_BREAK"], 0, 0, 0), (Tt["NOTE"], 40, 6, 0)
+    LE = (Tt["LOOP_END"], 2, 0, 0)
+    broken = {"open": [N, LS, N, N], "open-break": [N, LS, N, LB, N], "open2": [LS, LS, N, LE, N], "stray-end": [N, LE, N],
+              "stray-break": [N, LB, N], "end-first": [LE, LS, N]}
+    for name, evs in broken.items():
+        yield Case("convwf " + songgen.render({0: evs}), ("broken", name), "broken")
+        yield Case("convwf " + songgen.render({0: [N, (Tt["JUMP"], 100, 0, 0), N], 100: evs}), ("broken", name, "sub"), "broken")
+        yield Case("convwf " + songgen.render({0: [(Tt["PAN_ENVELOPE"], 300, 0, 0), N], 300: [(Tt["PAN"], 1, 0, 0)] + [e if e[0] != Tt["NOTE"] else (Tt["REST"], 0, 0, 4) for e in evs]}),
+                   ("broken", name, "macro"), "broken")
+        yield Case("convwf " + songgen.render({0: [(Tt["DRUM_MODE"], 1, 0, 0), (Tt["NOTE"], 200, 4, 0), (Tt["NOTE"], 200, 4, 0)], 200: evs}), ("broken", name, "drum"), "broken")
     # loop points at every position, including inside loops and subroutines
     T = songgen.event_types()
     n = 150 if tier == "quick" else 2500
